@@ -80,6 +80,9 @@ func c12RunTask(t c12Task, depth, bound int, viol *[]drv.Violation) (uint64, int
 	n, extra, points := 0, 0, 0
 	var dfs func(hist []model.Op)
 	dfs = func(hist []model.Op) {
+		if pastDeadline() {
+			return
+		}
 		mapReset(nil)
 		d0, succ, _ := runTrace(t.cfg, t.prelude, hist, c12Alphabet, false)
 		perms := mapLog()
@@ -159,6 +162,7 @@ func init() {
 			r.Digests = append(r.Digests, fmt.Sprintf("%d:%x", k, d))
 			r.Violations = append(r.Violations, v...)
 		}
+		r.Truncated = pastDeadline()
 		return r
 	}
 
@@ -205,6 +209,9 @@ func init() {
 						return e
 					}
 				}
+			}
+			for _, rd := range rounds {
+				noteTruncated(rep, "C12", rd.res[:]...)
 			}
 			points := 0
 			for s := 0; s < shards; s++ {
